@@ -15,10 +15,17 @@ Definition due_ok (cr : list (nat * (Z * Z))) (k : Z) (e : elem) : Prop :=
   exists t0 dl, In (snd e, (t0, dl)) cr /\ t0 + dl <= to_us (fst e) + k.
 Definition head_le (l : list elem) (b : Z) : Prop := match l with [] => True | (d, _) :: _ => to_us d <= b end.
 
+Definition Kp (nw rm : Z) (ts lt : Time) : Z := Z.min (nw + rm - to_us ts - to_us lt) (nw - to_us ts).
+Definition est (ts lt tts : Time) : Z := to_us ts + Z.max 0 (to_us lt - to_us tts).
 Definition StableF (run : bool) (pend : list elem) (rm : Z) (ts lt : Time) (nw : Z) (cr : list (nat * (Z * Z))) : Prop :=
-  if run then pend <> [] /\ 0 < rm <= to_us lt /\ head_le pend (to_us ts + to_us lt) /\
-              Forall (due_ok cr (nw + rm - to_us ts - to_us lt)) pend
+  if run then pend <> [] /\ 0 < rm /\ head_le pend (to_us ts + to_us lt) /\
+              Forall (due_ok cr (Kp nw rm ts lt)) pend
   else pend = [] /\ rm = 0.
+(* what a reader of the timer knows: every pending deadline is safe w.r.t. an offset k0 that is not after the
+   reading (k0 + estimate <= now), and k0 is below the current offset *)
+Definition GetF (s : st) (tts : Time) (k0 : Z) : Prop :=
+  Forall (due_ok (created s) k0) (pending s) /\ k0 + est (tsf s) (ltr s) tts <= now s /\
+  k0 <= Kp (now s) (rem s) (tsf s) (ltr s).
 Definition Stable (s : st) : Prop := StableF (running s) (pending s) (rem s) (tsf s) (ltr s) (now s) (created s).
 
 Definition Cr (s : st) (id : nat) (d : Time) (bound : Z) : Prop :=
@@ -37,26 +44,30 @@ Definition P3 (s : st) : Prop :=
   | A3 id => incs s = true /\ running s = false /\
              StableF true (pending s) (rem s) (tsf s) (ltr s) (now s) (created s)
   | E0 id d => incs s = true /\ running s = true /\ Stable s /\ Cr s id d (now s) /\ 0 < to_us d
-  | E1 id d tts => incs s = true /\ running s = true /\ Stable s /\ Cr s id d (now s + rem s - to_us tts) /\
-                   rem s <= to_us tts <= to_us (ltr s) /\ 0 < to_us d
-  | E2 id d tts el => incs s = true /\ running s = true /\ Stable s /\ Cr s id d (now s + rem s - to_us tts) /\
-                      rem s <= to_us tts <= to_us (ltr s) /\ 0 < to_us d /\ el = ltr s
-  | E3 id d tts cur rd => incs s = true /\ running s = true /\ Stable s /\
-                          to_us cur + rem s <= to_us (tsf s) + to_us (ltr s) /\ to_us rd = to_us d + to_us cur /\
-                          due_ok (created s) (now s + rem s - to_us (tsf s) - to_us (ltr s)) (rd, id) /\ 0 < to_us d
-  | E5 id d cur => incs s = true /\ running s = true /\ Stable s /\
-                   to_us cur + rem s <= to_us (tsf s) + to_us (ltr s) /\
-                   head_le (pending s) (to_us d + to_us cur) /\ 0 < to_us d
+  | E1 id d tts => incs s = true /\ running s = true /\ Stable s /\ 0 < to_us d /\
+                   exists k0 t0, In (id, (t0, to_us d)) (created s) /\ GetF s tts k0 /\
+                                 t0 <= k0 + est (tsf s) (ltr s) tts
+  | E2 id d tts el => incs s = true /\ running s = true /\ Stable s /\ 0 < to_us d /\ el = ltr s /\
+                   exists k0 t0, In (id, (t0, to_us d)) (created s) /\ GetF s tts k0 /\
+                                 t0 <= k0 + est (tsf s) (ltr s) tts
+  | E3 id d tts cur rd => incs s = true /\ running s = true /\ Stable s /\ 0 < to_us d /\
+                          to_us rd = to_us d + to_us cur /\
+                          due_ok (created s) (Kp (now s) (rem s) (tsf s) (ltr s)) (rd, id) /\
+                          exists k0, Forall (due_ok (created s) k0) (pending s) /\ due_ok (created s) k0 (rd, id) /\
+                                     k0 + to_us cur <= now s
+  | E5 id d cur => incs s = true /\ running s = true /\ Stable s /\ 0 < to_us d /\
+                   head_le (pending s) (to_us d + to_us cur) /\
+                   exists k0, Forall (due_ok (created s) k0) (pending s) /\ k0 + to_us cur <= now s
   | E6 id d => incs s = true /\ running s = true /\ pending s <> [] /\ head_le (pending s) (to_us (tsf s) + to_us d) /\
                Forall (due_ok (created s) (now s - to_us (tsf s))) (pending s) /\ 0 < to_us d
   | R0 id fd nd => incs s = true /\ running s = true /\ Stable s /\
                    (exists i2 rest, pending s = (fd, id) :: (nd, i2) :: rest) /\ to_us fd < to_us nd
   | R1 id fd nd tts => incs s = true /\ running s = true /\ Stable s /\
                        (exists i2 rest, pending s = (fd, id) :: (nd, i2) :: rest) /\ to_us fd < to_us nd /\
-                       rem s <= to_us tts <= to_us (ltr s)
+                       exists k0, GetF s tts k0
   | R2 id fd nd tts el => incs s = true /\ running s = true /\ Stable s /\
                           (exists i2 rest, pending s = (fd, id) :: (nd, i2) :: rest) /\ to_us fd < to_us nd /\
-                          rem s <= to_us tts <= to_us (ltr s) /\ el = ltr s
+                          el = ltr s /\ exists k0, GetF s tts k0
   | R3 id fd nd tts => incs s = true /\ running s = true /\
                        (exists i2 rest, pending s = (fd, id) :: (nd, i2) :: rest) /\ to_us fd < to_us nd /\
                        Forall (due_ok (created s) (now s - to_us (tsf s))) (pending s) /\
@@ -172,7 +183,7 @@ Section Early.
     destruct (tadd_ok (tsf s) (ltr s) Htsf Hltr) as [Hta Htau].
     destruct (running s) eqn:Hrun.
     2:{ destruct Hst as [_ Hz]. lia. }
-    destruct Hst as (Hne & Hr & Hhead & Hdue).
+    destruct Hst as (Hne & Hr & Hhead & Hdue). unfold Kp in Hdue.
     destruct (pending s) as [|[d1 i1] r] eqn:Hp; [congruence|].
     destruct (fire_loop c (tadd (tsf s) (ltr s)) r) as [f r'] eqn:Hf.
     inversion Hpend as [|? ? Hd1 Hr']; subst.
@@ -182,7 +193,7 @@ Section Early.
                exists t0 dl, In (id, (t0, dl)) (created s) /\ t0 + dl <= t).
     { intros id t d. rewrite in_app_iff, <- in_rev. intros [Hin|Hin]; [|apply (Hlog _ _ _ Hin)].
       apply in_map_iff in Hin as ([dd ii] & [= <- <- <-] & Hin).
-      assert (Hd : due_ok (created s) (now s + rem s - to_us (tsf s) - to_us (ltr s)) (dd, ii)).
+      assert (Hd : due_ok (created s) (Z.min (now s + rem s - to_us (tsf s) - to_us (ltr s)) (now s - to_us (tsf s))) (dd, ii)).
       { rewrite Forall_forall in Hdue. apply Hdue. destruct Hin as [<-|Hin]; [left; auto|].
         right. rewrite Happ. apply in_or_app; auto. }
       destruct Hd as (t0 & dl & A & B). exists t0, dl. split; auto. simpl in B.
@@ -196,19 +207,11 @@ Section Early.
       destruct (tsub_ok d' (tadd (tsf s) (ltr s)) Hd' Hta) as [Hso Hsu].
       assert (Hpos : 0 < to_us (tsub d' (tadd (tsf s) (ltr s)))) by lia.
       unfold set_timer. rewrite (is_zero_false _ Hso Hpos). simpl.
-      unfold Stable, StableF, LogOK. simpl. rewrite Hrun. repeat split; auto; try lia; try discriminate.
+      unfold Stable, StableF, LogOK, Kp. simpl. rewrite Hrun. repeat split; auto; try lia; try discriminate.
       (* every remaining element keeps its bound: K is unchanged *)
       rewrite Forall_forall in *. intros x Hx.
       assert (Hx' : In x ((d1, i1) :: r)) by (right; rewrite Happ; apply in_or_app; auto).
       specialize (Hdue x Hx'). eapply due_ok_mono; [|exact Hdue]. lia.
   Qed.
 
-  Lemma stable_tick s us : Stable s -> 0 < us -> (rem s = 0 \/ us < rem s) ->
-    StableF (running s) (pending s) (if rem s =? 0 then rem s else rem s - us) (tsf s) (ltr s) (now s + us) (created s).
-  Proof.
-    unfold Stable, StableF. intros H Hus Hr. destruct (running s).
-    - destruct H as (A & B & C & D). destruct (rem s =? 0) eqn:E; [apply Z.eqb_eq in E; lia|].
-      repeat split; auto; try lia. eapply Forall_due_mono; [|exact D]. lia.
-    - destruct H as [A B]. rewrite B. simpl. auto.
-  Qed.
 End Early.
